@@ -42,7 +42,7 @@ def poll_q(run):
     return run.poll()
 
 
-def run_free(run, policy, max_steps=400, hook=None, start=True):
+def run_free(run, policy, max_steps=400, hook=None, start=True, max_offers=600):
     """drive to quiescence. hook(run, phase) may inject requests / crashes; phase in
     ('before_poll', 'after_poll', 'after_done')"""
     if start:
@@ -52,6 +52,10 @@ def run_free(run, policy, max_steps=400, hook=None, start=True):
     resumed = 0
     while steps < max_steps:
         steps += 1
+        if len(run.offers) > max_offers:
+            # an unbounded definition (the generated classes are bounded; wild edits may not be): cut, not a verdict
+            run.notes["max_steps"] = True
+            return run
         if hook:
             hook(run, "before_poll")
         if need_poll or not run.inflight:
